@@ -92,7 +92,7 @@ func TestC13ClientClose(t *testing.T) {
 	rapid.Check(t, func(rt *rapid.T) {
 		c := genClientCloseCase(rt)
 		done := pbt.Inflight("C13", "clientclose", c)
-		st, err := runHostile(c)
+		st, err := pbt.Safe(runHostile, c)
 		done()
 		if st == nil {
 			st = &hostileStats{}
@@ -110,7 +110,7 @@ func TestC13(t *testing.T) {
 	rapid.Check(t, func(rt *rapid.T) {
 		c := genCloseCase(rt)
 		done := pbt.Inflight("C13", "closes", c)
-		st, err := runCloses(c)
+		st, err := pbt.Safe(runCloses, c)
 		done()
 		if st == nil {
 			st = &closeStats{}
